@@ -47,6 +47,7 @@ fn main() {
         let v: serde_json::Value = serde_json::from_str(&text).expect("replay file is not JSON");
         let case = &v["case"];
         let code = match id.as_str() {
+            "C08" => props::c08::replay(case),
             "C09" => props::c09::replay(case),
             "C12" => props::c12::replay(case),
             "C13" => props::c13::replay(case),
@@ -60,6 +61,7 @@ fn main() {
         std::process::exit(code);
     }
     let code = match id.as_str() {
+        "C08" => props::c08::run(tier),
         "C09" => props::c09::run(tier),
         "C12" => props::c12::run(tier),
         "C13" => props::c13::run(tier),
